@@ -453,6 +453,10 @@ func baseToNumber(L *LState) int {
 				neg = str[0] == '-'
 				str = str[1:]
 			}
+			if base == 16 && len(str) > 1 && str[0] == '0' && (str[1] == 'x' || str[1] == 'X') {
+				// strtoul accepts the prefix 0x when the base is 16
+				str = str[2:]
+			}
 			if v, err := strconv.ParseUint(str, base, LNumberBit); err != nil {
 				L.Push(LNil)
 			} else if neg {
